@@ -93,7 +93,28 @@ class Desugar(ast.NodeTransformer):
             subject = ast.Name(tmp, ast.Load())
         tests = []
         for c in node.cases:
-            t = _pattern_test(subject, c.pattern)
+            pat = c.pattern
+            if isinstance(pat, ast.MatchAs) and pat.pattern is None and \
+                    pat.name is not None and _pure_subject(subject):
+                # capture pattern: `case x if g(x)` binds x to the subject
+                name = pat.name
+
+                class Sub(ast.NodeTransformer):
+                    def visit_Name(self, n):
+                        if n.id == name and isinstance(n.ctx, ast.Load):
+                            return ast.copy_location(
+                                ast.parse(ast.unparse(subject),
+                                          mode="eval").body, n)
+                        return n
+                bind = ast.copy_location(ast.Assign(
+                    [ast.Name(name, ast.Store())], subject), pat)
+                c.body = [bind] + list(c.body)
+                t = True
+                if c.guard is not None:
+                    t = Sub().visit(c.guard)
+                tests.append(t)
+                continue
+            t = _pattern_test(subject, pat)
             if t is None:
                 return node          # unsupported pattern: leave the match
             if c.guard is not None:
